@@ -433,8 +433,30 @@ def oracle_history(h):
     return None
 
 
-def oracle_constructors(rng, n):
+def keyword_constructor_cases():
+    """Measurement(v [, e], relative_error=r) and the keyword spellings of the uncertainty: whatever the library does
+    with the keywords (the unchanged tree ignores relative_error for a single measurement), the result has an uncertainty
+    >= 0 or the call is rejected.  Oracle only: the model does not describe these spellings."""
     out = []
+    for v in (-3.5, 0.0, 2.5):
+        for r in NUMS:
+            for kw in ({"relative_error": r}, {"error": 0.25, "relative_error": r}, {"error": r}, {"error": r, "relative_error": 0.1}):
+                CL.reset_world()
+                try:
+                    with warnings.catch_warnings():
+                        warnings.simplefilter("ignore")
+                        m = q().Measurement(v, **kw)
+                        err = float(m.error)
+                except Exception:  # noqa
+                    continue
+                if not ok_number(err):
+                    out.append(("ctor-kw", {"form": "ctor-kw", "v": v, "kw": {k: (x if not isinstance(x, float) else x) for k, x in kw.items()}},
+                                "Measurement({}, {}) has uncertainty {}".format(v, ", ".join("{}={}".format(k, x) for k, x in kw.items()), err)))
+    return out
+
+
+def oracle_constructors(rng, n):
+    out = keyword_constructor_cases()
     for c in constructor_cases(rng, n):
         if c["out"] == "Accepted" and not ok_number(c["err"]):
             out.append(("ctor", c, "{} with ({}, {}) has uncertainty {}".format(
@@ -497,7 +519,7 @@ def replay(ctx, v):
     else:
         import random
         found = [w for k, c, w in oracle_constructors(random.Random(0), 0)
-                 if k == v["kind"] and all(c.get(f) == v["case"].get(f) for f in ("form", "v", "e", "data", "error", "rel"))]
+                 if k == v["kind"] and all(c.get(f) == v["case"].get(f) for f in ("form", "v", "e", "data", "error", "rel", "kw"))]
         why = found[0] if found else None
     CL.reset_world()
     return Violation(ID, v["kind"], v["case"], why) if why else None
